@@ -137,41 +137,56 @@ def tree_loop(extra=""):
 TREE_KEPT = "self._taxon_namespace == old(self._taxon_namespace) and forall_ref('Taxon', lambda t: implies(old(%s), %s))" % (
     member("self._taxon_namespace", "t"), member("self._taxon_namespace", "t"))
 
+# frames that list-wide reasoning needs: nodes that are not this tree's keep their taxon; in EVERY namespace members stay members
+def others_nodes(tree, P="old"):
+    return "forall_ref('Node', lambda n: implies(n.g_owner != %s, n.taxon == %s(n.taxon)))" % (tree, P)
+
+
+def all_kept(P="old"):
+    return ("forall_ref('TaxonNamespace', lambda m: forall_ref('Taxon', lambda t: implies({P}(has(m._taxon_accession_index_map, t)), "
+            "has(m._taxon_accession_index_map, t))))").format(P=P)
+
+
 CONTRACTS += [
     Contract(TR + ":Tree.update_taxon_namespace", types={"return": "opaque"}, requires="listinv(self.g_nodes)",
              modifies=NS_MODS, frame=False, allowed_raises=("ImmutableTaxonNamespaceError",),
-             loops={0: Loop(invariant=tree_loop(" and forall_ref('Node', lambda n: n.taxon == pre(n.taxon))"))},
+             loops={0: Loop(invariant=tree_loop(" and forall_ref('Node', lambda n: n.taxon == pre(n.taxon)) and " + all_kept("pre")))},
              locals={"nd": "ref:Node"},
-             ensures={"closed": clt("self"), "members-kept": TREE_KEPT,
+             ensures={"closed": clt("self"), "members-kept": TREE_KEPT, "members-kept-in-every-namespace": all_kept(),
                       "node-taxa-untouched": "forall_ref('Node', lambda n: n.taxon == old(n.taxon))"}),
     Contract(TR + ":Tree.reconstruct_taxon_namespace", types={"unify_taxa_by_label": "opt bool", "taxon_mapping_memo": "opaque"},
              requires="listinv(self.g_nodes)", inline=("__contains__",),
              modifies=NS_MODS + ["Node.taxon[*]"], frame=False, allowed_raises=("ImmutableTaxonNamespaceError",),
-             loops={0: Loop(invariant=tree_loop())},
+             loops={0: Loop(invariant=tree_loop(" and " + others_nodes("self", "pre") + " and " + all_kept("pre")))},
              locals={"node": "ref:Node", "t": "opt ref:Taxon"},
-             ensures={"closed": clt("self"), "members-kept": TREE_KEPT}),
+             ensures={"closed": clt("self"), "members-kept": TREE_KEPT, "members-kept-in-every-namespace": all_kept(),
+                      "nodes-of-other-trees-untouched": others_nodes("self")}),
     Contract(TX + ":TaxonNamespaceAssociated.migrate_taxon_namespace", name="Tree.migrate_taxon_namespace",
              types={"self": "ref:Tree", "taxon_namespace": "ref:TaxonNamespace", "unify_taxa_by_label": "opt bool", "taxon_mapping_memo": "opaque"},
              requires="listinv(self.g_nodes)", modifies=NS_MODS + ["Node.taxon[*]", "self._taxon_namespace"], frame=False,
              allowed_raises=("ImmutableTaxonNamespaceError",),
-             ensures={"refers-to-the-new-namespace": "self._taxon_namespace == taxon_namespace", "closed": clt("self")}),
+             ensures={"refers-to-the-new-namespace": "self._taxon_namespace == taxon_namespace", "closed": clt("self"),
+                      "members-kept-in-every-namespace": all_kept(), "nodes-of-other-trees-untouched": others_nodes("self")}),
     Contract(TC + ":TreeList._import_tree_to_taxon_namespace", types={"tree": "ref:Tree", "taxon_import_strategy": "opaque", "**": "opaque", "return": "ref:Tree"},
              requires="listinv(tree.g_nodes) and " + clt("tree"),
              modifies=NS_MODS + ["Node.taxon[*]", "tree._taxon_namespace"], frame=False,
              allowed_raises=("ImmutableTaxonNamespaceError", "ValueError"),
-             ensures={"shares-the-list's-namespace": "tree._taxon_namespace == self._taxon_namespace", "closed": clt("tree"), "returns-the-tree": "result == tree"}),
+             ensures={"shares-the-list's-namespace": "tree._taxon_namespace == self._taxon_namespace", "closed": clt("tree"), "returns-the-tree": "result == tree",
+                      "members-kept-in-every-namespace": all_kept(), "nodes-of-other-trees-untouched": others_nodes("tree")}),
     Contract(TC + ":TreeList.append", types={"tree": "ref:Tree", "taxon_import_strategy": "opaque", "**": "opaque"},
              requires="listinv(tree.g_nodes) and " + clt("tree"),
              modifies=NS_MODS + ["Node.taxon[*]", "tree._taxon_namespace", "self._trees"], frame=False,
              allowed_raises=("ImmutableTaxonNamespaceError", "ValueError"),
              ensures={"shares-the-list's-namespace": "tree._taxon_namespace == self._taxon_namespace", "closed": clt("tree"),
-                      "one-more-tree": "len(self._trees) == old(len(self._trees)) + 1"}),
+                      "one-more-tree": "len(self._trees) == old(len(self._trees)) + 1",
+                      "members-kept-in-every-namespace": all_kept(), "nodes-of-other-trees-untouched": others_nodes("tree")}),
     Contract(TC + ":TreeList.insert", types={"index": "int", "tree": "ref:Tree", "taxon_import_strategy": "opaque", "**": "opaque"},
              requires="listinv(tree.g_nodes) and " + clt("tree"),
              modifies=NS_MODS + ["Node.taxon[*]", "tree._taxon_namespace", "self._trees"], frame=False,
              allowed_raises=("ImmutableTaxonNamespaceError", "ValueError"),
              ensures={"shares-the-list's-namespace": "tree._taxon_namespace == self._taxon_namespace", "closed": clt("tree"),
-                      "one-more-tree": "len(self._trees) == old(len(self._trees)) + 1"}),
+                      "one-more-tree": "len(self._trees) == old(len(self._trees)) + 1",
+                      "members-kept-in-every-namespace": all_kept(), "nodes-of-other-trees-untouched": others_nodes("tree")}),
 ]
 
 
@@ -233,6 +248,43 @@ def t1(ctx):
     from contracts import C11ns
     C11ns.t1(ctx)
     validate_assumed(ctx)
+    from_dict_matching(ctx)
+
+
+def from_dict_matching(ctx):
+    """CharacterMatrix.from_dict: which member a string key names is decided by require_taxon under the caller's
+    case_sensitive_taxon_labels (documented) -- AST obligation: every require_taxon call of from_dict gets is_case_sensitive=<that parameter>,
+    and a Taxon key that is not a member is added (`add_taxon`) before its row is stored"""
+    import ast
+    import time
+    from dpvc import frontend
+    tgt = "dendropy.datamodel.charmatrixmodel:CharacterMatrix.from_dict"
+    t0 = time.time()
+    m, ci, fn = frontend.resolve(tgt)
+    ctx.add_function(tgt)
+    calls = [n for n in ast.walk(fn) if isinstance(n, ast.Call) and isinstance(n.func, ast.Attribute) and n.func.attr == "require_taxon"]
+    ok = bool(calls) and all(any(k.arg == "is_case_sensitive" and isinstance(k.value, ast.Name) and k.value.id == "case_sensitive_taxon_labels" for k in c.keywords) for c in calls)
+    name = "CharacterMatrix.from_dict.forwards[case_sensitive_taxon_labels -> require_taxon(is_case_sensitive=)]"
+    ctx.obligation(name, "proved" if ok else "refuted", "ast-scan", time.time() - t0, tgt,
+                   detail=None if ok else "require_taxon calls: %s" % [ast.unparse(c) for c in calls])
+    if not ok:
+        import dendropy
+        ns = dendropy.TaxonNamespace(["Human"])
+        mm = dendropy.DnaCharacterMatrix.from_dict({"HUMAN": "ACGT"}, taxon_namespace=ns, case_sensitive_taxon_labels=False)
+        labels = [t.label for t in ns]
+        if labels != ["Human"]:
+            ctx.fail(name, dict(key="from_dict|HUMAN into [Human], flag False", members=labels),
+                     detail="from_dict({'HUMAN': ...}, taxon_namespace=ns(['Human']), case_sensitive_taxon_labels=False) leaves the members %r: the key was not matched "
+                            "ignoring case as the flag asks" % (labels,), kind="T1")
+        else:
+            ns2 = dendropy.TaxonNamespace(["a"])
+            dendropy.DnaCharacterMatrix.from_dict({"A": "ACGT"}, taxon_namespace=ns2, case_sensitive_taxon_labels=True)
+            labels2 = [t.label for t in ns2]
+            if labels2 != ["a", "A"]:
+                ctx.fail(name, dict(key="from_dict|A into [a], flag True", members=labels2),
+                         detail="from_dict({'A': ...}, taxon_namespace=ns(['a']), case_sensitive_taxon_labels=True) leaves the members %r, required ['a', 'A']" % (labels2,), kind="T1")
+            else:
+                ctx.fail(name, dict(key="site:from_dict.require_taxon"), detail="the flag is not handed to require_taxon; no failing input found", kind="T1", no_input=True)
 
 
 # ----------------------------------------------------------------------------- native replay: small matrices
@@ -325,4 +377,13 @@ def _tree_states(c, meth):
 
 
 def replay(ctx, rec):
+    if str(rec.get("obligation", "")).startswith("CharacterMatrix.from_dict.forwards"):
+        import dendropy
+        ns = dendropy.TaxonNamespace(["Human"])
+        dendropy.DnaCharacterMatrix.from_dict({"HUMAN": "ACGT"}, taxon_namespace=ns, case_sensitive_taxon_labels=False)
+        ns2 = dendropy.TaxonNamespace(["a"])
+        dendropy.DnaCharacterMatrix.from_dict({"A": "ACGT"}, taxon_namespace=ns2, case_sensitive_taxon_labels=True)
+        a, b = [t.label for t in ns], [t.label for t in ns2]
+        print("from_dict HUMAN into [Human] ignoring case -> %r; A into [a] respecting case -> %r" % (a, b))
+        return a == ["Human"] and b == ["a", "A"]
     return dreplay.replay_state_record(rec, CONTRACTS, _states)
